@@ -179,7 +179,11 @@ func checkProperty(id string, thorough, verbose bool, replayFile string, timeout
 			fmt.Printf("ENGINE-ERROR %s: %s\n", r.Key, r.Err)
 			engineErrs++
 		}
-		all = append(all, r.Obls...)
+		for _, o := range r.Obls {
+			if forProperty(o.Name, id) {
+				all = append(all, o)
+			}
+		}
 	}
 	if timeout == 0 {
 		timeout = 30
@@ -421,4 +425,21 @@ func (ld *Loaded) missingObligations(id string) []*FuncResult {
 		out = append(out, &FuncResult{Key: "static:" + o.Name, Obls: []*Obligation{o}})
 	}
 	return out
+}
+
+var propTagRe = regexp.MustCompile(`@(C\d+(?:_C\d+)*)`)
+
+// forProperty: a clause label may end in @C11 or @C11_C06: the obligation then belongs to those
+// properties only (other properties that verify the same function do not count it).
+func forProperty(name, id string) bool {
+	m := propTagRe.FindStringSubmatch(name)
+	if m == nil {
+		return true
+	}
+	for _, p := range strings.Split(m[1], "_") {
+		if p == id {
+			return true
+		}
+	}
+	return false
 }
